@@ -80,6 +80,12 @@ def _loop (ctx, repo, f, L):
     tbl = norm(c.func.value); idx = norm(c.func.slice)
     tdef = q.single_def(f.node, idx)
     good = tdef is not None and norm(tdef) == '%s[%s]' % (L.buf, ('%s + 1' % L.cur) if L.cur else '1')
+    if tdef is None:
+      for a_ in walk_no_nested(f.node):
+        if isinstance(a_, ast.Assign) and isinstance(a_.targets[0], ast.Tuple) and isinstance(a_.value, ast.Call) and call_name(a_.value) == 'unpack_from':
+          fmt = repo.try_const(mod, a_.value.args[0]); offs = framing.field_offsets(fmt) if isinstance(fmt, str) else []
+          for (o, sz), nm in zip(offs, a_.targets[0].elts):
+            if norm(nm) == idx and o == 1 and sz == 1 and norm(a_.value.args[1]) == L.buf: good = True; tdef = a_.value
     ctx.ob('R-AGREE', f, "decoder selected by the header's type byte", good, "%s = %s" % (idx, norm(tdef)), (mod, c), 'D3')
   # ---- D4 advance by exactly WLEN ------------------------------------------------------
   after_dec = set()
